@@ -6,6 +6,7 @@ package chain
 // and the rescan callbacks that feed it) can be driven without a network.
 
 import (
+	"fmt"
 	"time"
 
 	"github.com/btcsuite/btcd/btcutil"
@@ -58,4 +59,24 @@ func (s *NeutrinoClient) VerifFilteredBlockConnected(height int32, header *wire.
 }
 func (s *NeutrinoClient) VerifBlockDisconnected(hash *chainhash.Hash, height int32, t time.Time) {
 	s.onBlockDisconnected(hash, height, t)
+}
+
+// VerifBtcdMapRPCErr is RPCClient.MapRPCErr with the backend's version given
+// instead of asked over the network (the real method calls BackendVersion):
+// the same two passes over the real BtcdErrMap / BtcdErrMapPre2402 tables with
+// the real matchErrStr.
+func VerifBtcdMapRPCErr(rpcErr error, supportsTestMempoolAccept bool) error {
+	for btcdErr, matchedErr := range BtcdErrMap {
+		if matchErrStr(rpcErr, btcdErr) {
+			return matchedErr
+		}
+	}
+	if !supportsTestMempoolAccept {
+		for btcdErr, matchedErr := range BtcdErrMapPre2402 {
+			if matchErrStr(rpcErr, btcdErr) {
+				return matchedErr
+			}
+		}
+	}
+	return fmt.Errorf("%w: %v", ErrUndefined, rpcErr)
 }
